@@ -38,9 +38,21 @@ class CalcCrc(Contract):
         spec = speccrc.crc_of_value(st, message)
         return [(st, norm(spec))]
 
+    @staticmethod
+    def accumulator_name():
+        """The CRC register is whatever local the function returns (masked): robust against renaming."""
+        import ast
+        fi = extract.func(H + "calc_crc24q")
+        for n in ast.walk(fi.node):
+            if isinstance(n, ast.Return) and n.value is not None:
+                names = [x.id for x in ast.walk(n.value) if isinstance(x, ast.Name)]
+                if names:
+                    return names[0]
+        return "crc"
+
     def inv(self, eng, st, k):
         v = self._view
-        crc = st.env["crc"]
+        crc = st.env[self.accumulator_name()]
         ks = z3.simplify(k)
         if z3.is_int_value(ks) and ks.as_long() == 0:
             st.assume(speccrc.crcx_base(st, v.arr, z3.IntVal(0), v.lo))
@@ -60,7 +72,7 @@ class CalcCrc(Contract):
 
     @property
     def loops(self):
-        return {0: LoopSpec(invariant=self.inv, kinds={"crc": self.crc_at}, facts=self.facts),
+        return {0: LoopSpec(invariant=self.inv, kinds={self.accumulator_name(): self.crc_at}, facts=self.facts),
                 1: LoopSpec(unroll=True)}
 
     def verify(self, eng, inst):
